@@ -230,9 +230,15 @@ fn jtext() -> impl Strategy<Value = String> {
         1 => any::<char>(),
     ];
     prop_oneof![
-        1 => Just(String::new()),
-        8 => prop::collection::vec(ch.clone(), 0..=12).prop_map(|v| v.into_iter().collect::<String>()),
-        1 => (prop::collection::vec(ch, 1..=8), 130usize..300).prop_map(|(v, n)| {
+        3 => Just(String::new()),
+        32 => prop::collection::vec(ch.clone(), 0..=12).prop_map(|v| v.into_iter().collect::<String>()),
+        // one uninterrupted run of plain characters, well beyond any internal buffer size
+        1 => (prop::sample::select(vec!['a', ' ', 'é', '漢', '😀']), 8_000usize..20_000, prop::sample::select(vec!["", "\"", "\n", "x"])).prop_map(|(c, n, tail)| {
+            let mut s: String = std::iter::repeat(c).take(n).collect();
+            s.push_str(tail);
+            s
+        }),
+        4 => (prop::collection::vec(ch, 1..=8), 130usize..300).prop_map(|(v, n)| {
             // very long (>= 1024 bytes is reached by repetition)
             let unit: String = v.into_iter().collect();
             unit.repeat(n)
@@ -268,6 +274,21 @@ pub struct Case {
     /// after this many bytes (state must not leak from the failed call into the next one)
     #[serde(default)]
     pub prior_failure: Option<usize>,
+    /// how the encoder comes into being: 0 `JsonEncoder::new()`, 1 `Default::default()`, 2 `kind: json` through the
+    /// default deserializers (what a configuration file does)
+    #[serde(default)]
+    pub ctor: u8,
+}
+
+/// The encoder by one of its public routes.
+pub fn make_json_encoder(ctor: u8) -> Result<Box<dyn log4rs::encode::Encode>, String> {
+    Ok(match ctor % 3 {
+        0 => Box::new(JsonEncoder::new()),
+        1 => Box::<JsonEncoder>::default(),
+        _ => log4rs::config::Deserializers::default()
+            .deserialize::<dyn log4rs::encode::Encode>("json", serde_value::Value::Map(Default::default()))
+            .map_err(|e| e.to_string())?,
+    })
 }
 
 pub fn strategy() -> impl Strategy<Value = Case> {
@@ -284,14 +305,15 @@ pub fn strategy() -> impl Strategy<Value = Case> {
         prop::option::weighted(0.3, jtext().prop_filter("thread names cannot hold NUL", |s| !s.contains('\0'))),
         crate::pat::write_script(),
         prop::bool::weighted(0.1),
-        prop::option::weighted(0.25, prop_oneof![Just(0usize), 1usize..40, 100usize..2000]),
+        (prop::option::weighted(0.25, prop_oneof![Just(0usize), 1usize..40, 100usize..2000]), 0u8..3),
     )
-        .prop_map(|((level, msg, target, module, file, line, mdc), thread, script, unnamed_thread, prior_failure)| Case {
+        .prop_map(|((level, msg, target, module, file, line, mdc), thread, script, unnamed_thread, (prior_failure, ctor))| Case {
             rec: Rec { level, msg, target, module, file, line, mdc },
             thread,
             script,
             unnamed_thread,
             prior_failure,
+            ctor,
         })
 }
 
@@ -320,12 +342,13 @@ impl log4rs::encode::Write for FailW {}
 
 fn check_on_thread(case: &Case, obs: &mut Obs, thread_name: Option<&str>) -> CaseResult {
     let rec = &case.rec;
-    let enc = JsonEncoder::new();
+    let enc = make_json_encoder(case.ctor).map_err(|e| Failure { sig: "C12:constructor".into(), msg: format!("the json encoder could not be built by route {}: {}", case.ctor % 3, e) })?;
+    let enc = &*enc;
     if let Some(k) = case.prior_failure {
         let other = Rec { level: 1, msg: vec!["an earlier record whose sink fails".into()], target: "earlier".into(), module: None, file: None, line: None, mdc: vec![] };
         let r = catch(|| {
             let mut w = FailW { left: k };
-            crate::pat::with_rec(&other, |r| log4rs::encode::Encode::encode(&enc, &mut w, r)).is_err()
+            crate::pat::with_rec(&other, |r| log4rs::encode::Encode::encode(enc, &mut w, r)).is_err()
         });
         match r {
             Err(p) => return fail("C12:panic", format!("encode into a failing sink panicked: {}", p)),
@@ -333,7 +356,7 @@ fn check_on_thread(case: &Case, obs: &mut Obs, thread_name: Option<&str>) -> Cas
         }
     }
     let t0 = chrono::Utc::now();
-    let (w, res) = match catch(|| encode_with(&enc, rec, case.script.clone())) {
+    let (w, res) = match catch(|| encode_with(enc, rec, case.script.clone())) {
         Ok(x) => x,
         Err(p) => return fail("C12:panic", format!("JsonEncoder::encode panicked: {}", p)),
     };
